@@ -308,32 +308,30 @@ Proof.
   - apply fp1. gdep d CSaves PDels s t; try (split; [assumption|congruence]). rewrite cP. apply andb_false_r.
 Qed.
 
-(* the many-to-one side covers this need only in the per-mapper regime, or inside one mapper (this is
-   the first defect: see FlushOrderRefuted.v) *)
+(* many-to-one side (the per-state edge (save_parent, child_action) was added by the repair a8ba61d) *)
 Lemma cov_m2o_savedel d s t :
   In d (g_deps g) -> d_active d = true -> d_kind d = 1 -> d_post d = false ->
-  d_parent d = map_of g s -> d_child d = map_of g t ->
+  d_parent d = map_of g s -> d_child d = map_of g t -> link_in g (d_id d) s t = true ->
   role_of g t = 2 -> role_of g s = 1 ->
-  incyc cy (SaveAll (map_of g s)) = false \/ map_of g s = map_of g t ->
   fpath (home_save g cy s) (home_del g cy t).
 Proof.
-  intros Hd Ha Hk Hp HP HC Rt Rs Hg. rewrite <- (fin_del t), <- (fin_save s).
-  destruct (incyc cy (SaveAll (map_of g s))) eqn:cP.
-  - destruct Hg as [Hg|Hg]; [discriminate|].
-    assert (cD : incyc cy (DelAll (map_of g s)) = true).
-    { rewrite <- HP. rewrite (pair_parent d Hd). rewrite HP. exact cP. }
-    simpl fin_act. rewrite cP. rewrite <- Hg, cD. apply fp1. split; [|split].
-    + eapply FE_intro.
-      * apply (all_edges_x T g cy (SaveAll (map_of g s)) (Some (SaveSt s), Some (DelAll (map_of g s)))).
-        -- apply SaveAll_in_actions0. rewrite Rs. discriminate.
-        -- exact cP.
-        -- simpl. apply in_or_app. left. apply in_map_iff. exists s. split; [reflexivity|apply in_saves_of, Rs].
-      * apply rw_right; try notproc; [apply shape_SaveSt, Hshape|exact cD|].
-        simpl. rewrite Hg. apply in_map, in_dels_of, Rt.
-    + apply SaveSt_FI; assumption.
-    + apply DelSt_FI; [assumption|rewrite <- Hg; exact cD].
-  - rewrite <- HP, <- HC. apply fp1. gdep d PSaves CDels s t; try (split; [assumption|congruence]).
-    simpl. rewrite HP, cP. reflexivity.
+  intros Hd Ha Hk Hp HP HC Hl Rt Rs. rewrite <- (fin_del t), <- (fin_save s), <- HP, <- HC.
+  pose proof (pair_child d Hd) as PC.
+  destruct (incyc cy (SaveAll (d_parent d))) eqn:cP.
+  - assert (cP' : incyc cy (parent_rec d false) = true) by exact cP.
+    assert (Hsum : sum_of g (d_id d) s <> []) by sumne Hl.
+    assert (Hst : In s (states_of g (d_parent d) false)) by (unfold states_of; rewrite HP; apply in_saves_of, Rs).
+    assert (FIs : In (SaveSt s) (final_items g cy)) by (apply SaveSt_FI; [assumption|rewrite <- HP; exact cP]).
+    simpl fin_act. rewrite cP. apply fp1.
+    destruct (incyc cy (SaveAll (d_child d))) eqn:cC; rewrite PC.
+    + assert (FIt : In (DelSt t) (final_items g cy)) by (apply DelSt_FI; [assumption|rewrite <- HC; exact PC]).
+      pose proof (child_cyc d s (Some t) cC (link_sum _ _ _ _ Hl)) as Hca. rewrite (child_action_del t Rt) in Hca.
+      pse d false s (Some (DelSt t), true) SSaveP SChild.
+    + assert (FIc : In (DelAll (d_child d)) (final_items g cy)) by (apply fi_coarse; [inact d Hd Ha|intros; discriminate|exact PC]).
+      pose proof (child_nocyc_del d s cC) as Hca.
+      pse d false s (Some (DelAll (d_child d)), true) SSaveP SChild.
+  - apply fp1. gdep d PSaves CDels s t; try (split; [assumption|congruence]).
+    simpl. rewrite cP. reflexivity.
 Qed.
 
 (* -------- post_update: INSERTs before the UPDATE by _post_update *)
